@@ -34,6 +34,7 @@ func C09(c *core.Ctx) error {
 		"probe.templ": execFail, "probe.templ.schema.json": `{"type":"object","additionalProperties":false,"properties":{"explode":{"type":"boolean"},"badgo":{"type":"boolean"},"ok":{}}}`,
 		"other.templ": core.ProbeTemplate, "other.templ.schema.json": `{"type":"object"}`,
 		"noparse.templ": "package {{.PkgName}\n", "noparse.templ.schema.json": `{"type":"object"}`,
+		"req.templ": core.ProbeTemplate, "req.templ.schema.json": `{"type":"object","required":["must"],"properties":{"must":{"type":"string"}}}`,
 	})
 	probe := "file://" + filepath.Join(tdir, "probe.templ")
 	P := func(s string) string { return core.ModPath + "/" + s }
@@ -163,6 +164,20 @@ func C09(c *core.Ctx) error {
 				tgt(pcs, ics)["filename"] = "{{.InterfaceName"
 			})
 		}
+		// a schema that rejects the EMPTY document: leaving the data out (everywhere, or for one mock only) is a
+		// violation like any other
+		add("required template-data key missing: no template-data at any level"+at, true, func(root core.M, pcs, ics []core.M, files map[string]string, s *c09scn) {
+			pcs[pos]["template"] = "file://" + filepath.Join(tdir, "req.templ")
+		})
+		add("required template-data key present at package level but emptied for one interface"+at, true, func(root core.M, pcs, ics []core.M, files map[string]string, s *c09scn) {
+			pcs[pos]["template"] = "file://" + filepath.Join(tdir, "req.templ")
+			pcs[pos]["template-data"] = core.M{"must": "here"}
+			ics[pos]["config"].(core.M)["template-data"] = core.M{"must": nil}
+		})
+		add("required template-data key given (valid control)"+at, false, func(root core.M, pcs, ics []core.M, files map[string]string, s *c09scn) {
+			pcs[pos]["template"] = "file://" + filepath.Join(tdir, "req.templ")
+			pcs[pos]["template-data"] = core.M{"must": "here"}
+		})
 		add("schema-rejected value at interface level overriding a valid top-level value of the same key"+at, true, func(root core.M, pcs, ics []core.M, files map[string]string, s *c09scn) {
 			root["template-data"] = core.M{"explode": false}
 			ics[pos]["config"].(core.M)["template-data"] = core.M{"explode": "sometimes"}
